@@ -375,6 +375,10 @@ func ruleDrop(c *Ctx, rule string, fns []*ssa.Function) {
 				c.OK(rule, key, c.P.Pos(ci.Pos()), "the callee's only error source is the callback handed to it here, and that callback returns nil on every path")
 				continue
 			}
+			if sc := ci.Common().StaticCallee(); sc != nil && returnsRecordedError(sc, ei) {
+				c.OK(rule, key, c.P.Pos(ci.Pos()), "the callee returns what it has also recorded in the error holder of its receiver: the caller may rely on the holder")
+				continue
+			}
 			if why, ok := dropExceptions[key]; ok {
 				c.OK(rule, key, c.P.Pos(ci.Pos()), "tabled exception: "+why)
 				continue
@@ -631,4 +635,72 @@ func onlyRelaysNilCallback(ci ssa.CallInstruction) bool {
 		}
 	}
 	return true
+}
+
+// returnsRecordedError: every error this function returns is one it has also stored in an error field of an
+// object it was given (bucket.Err = ...; return bucket.Err): a caller that ignores the result loses nothing,
+// the holder still has it.
+func returnsRecordedError(fn *ssa.Function, ei int) bool {
+	if fn.Blocks == nil || fn.Pkg == nil || !strings.HasPrefix(fn.Pkg.Pkg.Path(), modPath) {
+		return false
+	}
+	rootedAtParam := func(addr ssa.Value) bool {
+		for i := 0; i < 6; i++ {
+			switch x := addr.(type) {
+			case *ssa.FieldAddr:
+				addr = x.X
+			case *ssa.UnOp:
+				addr = x.X
+			case *ssa.Parameter:
+				return true
+			default:
+				return false
+			}
+		}
+		return false
+	}
+	errField := func(addr ssa.Value) bool {
+		fa, ok := addr.(*ssa.FieldAddr)
+		if !ok || !rootedAtParam(fa.X) {
+			return false
+		}
+		pt, isP := fa.Type().(*types.Pointer)
+		return isP && isErrorType(pt.Elem())
+	}
+	stored := map[ssa.Value]bool{}
+	for _, b := range fn.Blocks {
+		for _, in := range b.Instrs {
+			if st, ok := in.(*ssa.Store); ok && errField(st.Addr) {
+				stored[st.Val] = true
+			}
+		}
+	}
+	var ok func(v ssa.Value, depth int) bool
+	ok = func(v ssa.Value, depth int) bool {
+		if depth > 4 {
+			return false
+		}
+		if isNilConst(v) || stored[v] {
+			return true
+		}
+		switch x := v.(type) {
+		case *ssa.UnOp:
+			return x.Op == token.MUL && errField(x.X)
+		case *ssa.Phi:
+			for _, e := range x.Edges {
+				if !ok(e, depth+1) {
+					return false
+				}
+			}
+			return len(x.Edges) > 0
+		}
+		return false
+	}
+	rets := returnsOf(fn)
+	for _, r := range rets {
+		if ei >= len(r.Results) || !ok(r.Results[ei], 0) {
+			return false
+		}
+	}
+	return len(rets) > 0
 }
